@@ -300,7 +300,17 @@ namespace gridb
         auto m = kv(hdr, 1);
         unsigned dim = needInt(m.at("dim"));
         Grid g(dim);
-        g.onCellUpdate(&computeImportance, nullptr);
+        // cb=1 (default): the KPIECE configuration - the key `importance` is written by the registered cell-update callback only.
+        // cb=0: NO callback is registered (the configuration of tests/datastructures/gridb.cpp): the order reads what the USER wrote,
+        //       so the harness writes `importance` itself whenever the script writes a cell's data (add / upd / poke); a `poke` is then
+        //       an in-place key change that the user must follow by update(cell) or updateAll().
+        const bool cb = !m.count("cb") || m.at("cb") != "0";
+        if (cb)
+            g.onCellUpdate(&computeImportance, nullptr);
+        auto userKey = [&](CD &d) {
+            if (!cb)
+                d.importance = d.score / (d.coverage * d.selections);
+        };
         if (m.at("limit") != "default")
             g.setInteriorCellNeighborLimit(needInt(m.at("limit")));
         if (m.at("bounds") != "none")
@@ -348,6 +358,7 @@ namespace gridb
                     }
                     CD d;
                     dataAt(1 + dim, d);
+                    userKey(d);
                     Cell *cell = g.createCell(c);
                     cell->data = new CD(d);
                     g.add(cell);
@@ -379,6 +390,7 @@ namespace gridb
                     cell->data->score = d.score;
                     cell->data->coverage = d.coverage;
                     cell->data->selections = d.selections;
+                    userKey(*cell->data);
                     if (op == "upd")
                         g.update(cell);
                     fin("ok");
